@@ -35,8 +35,15 @@ def _cvc5(smt2, timeout_ms):
         os.unlink(path)
 
 
-def discharge(ob, timeout_ms=None, use_cvc5=True):
-    """sets ob.status in {'proved','refuted','unknown'}, ob.backend, ob.time, ob.model"""
+PHASE1_MS = int(os.environ.get('PYVC_PHASE1_MS', '4000'))
+PHASE1_MS_DEGRADED = 600
+MAX_PHASE2_PER_JOB = int(os.environ.get('PYVC_MAX_PHASE2', '32'))
+
+
+def discharge(ob, timeout_ms=None, use_cvc5=True, phase1_only=False, phase1_ms=None):
+    """sets ob.status in {'proved','refuted','unknown'}, ob.backend, ob.time, ob.model.
+    Order: z3 with a short budget (almost everything discharges in milliseconds), then cvc5, then z3 with the full
+    budget.  With phase1_only the later stages are left to the parallel second phase (ob.smt2 carries the query)."""
     t0 = time.time()
     goal = ob.goal
     if z3.is_true(z3.simplify(goal)):
@@ -47,35 +54,53 @@ def discharge(ob, timeout_ms=None, use_cvc5=True):
     for a in ob.assumptions:
         s.add(a)
     s.add(z3.Not(goal))
-    # 1. z3 with a short budget (almost everything discharges in milliseconds), 2. cvc5, 3. z3 with the full budget
-    s.set('timeout', min(4000, budget))
+    s.set('timeout', min(phase1_ms or PHASE1_MS, budget))
     r = s.check()
-    backend = 'z3'
-    if r == z3.unknown and use_cvc5:
-        try:
-            r2 = _cvc5(s.to_smt2(), min(CVC5_TIMEOUT_MS, budget))
-        except Exception:
-            r2 = 'unknown'
-        if r2 == 'unsat':
-            ob.status, ob.backend, ob.time = 'proved', 'cvc5', time.time() - t0
-            return ob
-        if r2 == 'sat':
-            # cvc5 gives no model through this route: ask z3 again below for a model
-            backend = 'cvc5'
-    if r == z3.unknown and budget > 4000:
-        s.set('timeout', budget)
-        r = s.check()
     if r == z3.unsat:
         ob.status, ob.backend = 'proved', 'z3'
     elif r == z3.sat:
         ob.status, ob.backend = 'refuted', 'z3'
         ob.model = s.model()
-    elif backend == 'cvc5':
-        ob.status, ob.backend = 'refuted', 'cvc5'
     else:
         ob.status, ob.backend = 'unknown', 'z3'
+        if phase1_only:
+            ob.smt2 = s.to_smt2()
+            ob.budget = budget
+        else:
+            st, be = phase2(s.to_smt2(), budget, use_cvc5)
+            ob.status, ob.backend = st, be
     ob.time = time.time() - t0
     return ob
+
+
+def phase2(smt2, budget_ms, use_cvc5=True):
+    """(status, backend) for a query z3 left undecided in the short first phase"""
+    if use_cvc5:
+        r2 = _cvc5(smt2, min(CVC5_TIMEOUT_MS, budget_ms))
+        if r2 == 'unsat':
+            return 'proved', 'cvc5'
+        if r2 == 'sat':
+            return 'refuted', 'cvc5'
+    if budget_ms > PHASE1_MS:
+        s = z3.Solver()
+        s.set('timeout', budget_ms)
+        try:
+            s.from_string(smt2)
+            r = s.check()
+        except Exception:
+            r = z3.unknown
+        if r == z3.unsat:
+            return 'proved', 'z3'
+        if r == z3.sat:
+            return 'refuted', 'z3'
+    return 'unknown', 'z3'
+
+
+def _phase2_task(arg):
+    smt2, budget = arg
+    t0 = time.time()
+    st, be = phase2(smt2, budget)
+    return st, be, time.time() - t0
 
 
 def run_job(job):
@@ -114,9 +139,16 @@ def run_job(job):
             res['vacuous'] = True
         if not ex.return_pcs and not contract.options.get('no_return_ok'):
             res['vacuous'] = True
+        n_unknown = 0
         for ob in obs:
-            discharge(ob, timeout_ms=contract.options.get('timeout_ms'))
-            res['obligations'].append(ob_dict(ob, ex))
+            discharge(ob, timeout_ms=contract.options.get('timeout_ms'), phase1_only=True,
+                      phase1_ms=PHASE1_MS if n_unknown < 6 else PHASE1_MS_DEGRADED)
+            d = ob_dict(ob, ex)
+            if ob.status == 'unknown':
+                n_unknown += 1
+                if n_unknown <= MAX_PHASE2_PER_JOB and getattr(ob, 'smt2', None):
+                    d['_smt2'], d['_budget'] = ob.smt2, ob.budget
+            res['obligations'].append(d)
     except OutOfSubset as e:
         res['status'], res['error'] = 'out-of-subset', str(e)
     except ContractDrift as e:
@@ -190,11 +222,33 @@ def run_contracts(contracts, procs=None):
     jobs = [(c, k) for c in contracts for k in range(len(c.instances))]
     procs = procs or min(16, max(1, len(jobs)))
     if procs == 1 or len(jobs) == 1:
-        return [run_job(j) for j in jobs]
+        return second_phase([run_job(j) for j in jobs])
     _set_jobs(jobs)
     ctx = mp.get_context('fork')
     with ctx.Pool(procs) as pool:
-        return pool.map(_run_indexed, [(i,) for i in range(len(jobs))], chunksize=1)
+        results = pool.map(_run_indexed, [(i,) for i in range(len(jobs))], chunksize=1)
+    return second_phase(results)
+
+
+def second_phase(results):
+    """obligations z3 left undecided in its short first budget: cvc5, then z3 with the full budget, in parallel"""
+    todo = []
+    for r in results:
+        for o in r['obligations']:
+            if '_smt2' in o:
+                todo.append(o)
+    if todo:
+        ctx = mp.get_context('fork')
+        with ctx.Pool(min(16, len(todo))) as pool:
+            outs = pool.map(_phase2_task, [(o['_smt2'], o['_budget']) for o in todo], chunksize=1)
+        for o, (st, be, dt) in zip(todo, outs):
+            o['status'], o['backend'] = st, be
+            o['time'] = round(o['time'] + dt, 4)
+    for r in results:
+        for o in r['obligations']:
+            o.pop('_smt2', None)
+            o.pop('_budget', None)
+    return results
 
 
 _JOBS = None
